@@ -158,7 +158,8 @@ def run_shard(ctx):
                         if (type(a) is C) if exact else isinstance(a, C):
                             exp = a
                             break
-                    got = t.get_first_ancestor_of_type(nd, C, exact_type=exact)
+                    # a flag is its truth value: True / False may be given as 1 / 0
+                    got = t.get_first_ancestor_of_type(nd, C, exact_type=exact if (k + len(cn)) % 3 else int(exact))
                     if got is not exp:
                         bad("first_ancestor", "get_first_ancestor_of_type wrong", node=k, cls=cn, exact=exact)
             C2 = (U.cls[f"{P}Bin"], U.cls[f"{P}List"], U.cls[f"{P}Un"], U.cls[f"{P}Call"])
@@ -168,7 +169,7 @@ def run_shard(ctx):
             exp = next((a for a in exp_anc if type(a) in C2), None)
             if exp is not None:
                 ctx.count("exact_tuple_hits")
-            if t.get_first_ancestor_of_type(nd, C2, exact_type=True) is not exp:
+            if t.get_first_ancestor_of_type(nd, C2, exact_type=True if k % 2 else 1) is not exp:
                 bad("first_ancestor", "get_first_ancestor_of_type (tuple of classes, exact_type=True) wrong", node=k)
             # xpath
             xp = t.get_xpath(nd)
